@@ -115,6 +115,18 @@ def h_fcache_Cache_evict : Nat := 0xc49a2b8e995d37a1
 /-- hash of the normalised skeleton of newEntry (internal/persistence/filecache/filecache.go) -/
 def h_fcache__newEntry : Nat := 0xd68a5875d07119f5
 
+/-- hash of the normalised skeleton of * (internal/persistence/jsondb/jsondb.go) -/
+def h_rest_hist_persistence_jsondb_jsondb_go : Nat := 0xfea9e9ac5c5ceca0
+
+/-- hash of the normalised skeleton of * (internal/persistence/jsondb/writer.go) -/
+def h_rest_hist_persistence_jsondb_writer_go : Nat := 0x8b554e313923373b
+
+/-- hash of the normalised skeleton of * (internal/persistence/filecache/filecache.go) -/
+def h_rest_hist_persistence_filecache_filecache_go : Nat := 0xed8caf81e75741d8
+
+/-- hash of the normalised skeleton of * (internal/persistence/model/status.go) -/
+def h_rest_hist_persistence_model_status_go : Nat := 0xa99de046e51c60df
+
 def dateFormat : List String := ["\"20060102\""]
 
 def dateTimeFormat : List String := ["\"20060102.15:04:05.000\""]
